@@ -6,21 +6,33 @@ def run(ctx):
     quick = ctx.tier == "quick"
     core.design_check(ctx, "WriteEdit_Docs.tla", "WriteEdit_MC.cfg", timeout=1500)
     behs = core.generate(ctx, "WriteEdit_Docs.tla", "Gen_WriteEdit_2.cfg" if quick else "Gen_WriteEdit_3.cfg", 0, 0, ctx.seed, bfs=True, timeout=2500)
-    if not quick and len(behs) > 80000:
-        behs = random.Random(ctx.seed).sample(behs, 80000)
-    ctx.say("  behaviours: %d (every sequence of %d edits on each of 6 files; each file rendered with seeded odd spacing, tabs, blank lines)" % (len(behs), 2 if quick else 3))
+    total = len(behs)
+    cap = 20000 if quick else 80000
+    if len(behs) > cap:
+        behs = random.Random(ctx.seed).sample(behs, cap)
+    ctx.say("  behaviours: %d of %d (every sequence of %d edits on each of 7 files in 18 file / layout combinations; each file rendered with seeded odd spacing, tabs, blank lines)" % (len(behs), total, 2 if quick else 3))
     hb = core.build_harness(ctx)
     trace, summ = core.run_harness(ctx, hb, "writeedit", behs, "writeedit", timeout=2500)
     for inc in summ["incidents"]:
         core.report(ctx, {"check": "replay", "kind": inc["kind"], "site": inc["site"][:60], "where": (inc["detail"].split("\n") + [""])[0][:100]}, inc)
-    v = core.validate_traces(ctx, "Trace_WriteEdit.tla", "Trace_WriteEdit_strict.cfg", "Trace_WriteEdit_mon.cfg", trace, "writeedit", timeout=2500, max_viol=12)
+    v = core.validate_traces(ctx, "Trace_WriteEdit.tla", "Trace_WriteEdit_strict.cfg", "Trace_WriteEdit_mon.cfg", trace, "writeedit", timeout=2500, collect_cfg="Trace_WriteEdit_collect.cfg")
     for x in v["violations"]:
         if x["invariant"] == "MonNoCrash" and any(json.loads(l).get("crashed") for l in x["lines"]):
             continue
         evs = [json.loads(l) for l in x["lines"]]
         ev = evs[x["event"] - 1] if 0 < x["event"] <= len(evs) else evs[-1]
         failing = sorted(k for k, val in ev.get("m", {}).items() if val is False) if x["invariant"] in ("MonLoad", "MonFormat") else []
-        core.report(ctx, {"check": "Mon_WriteEdit", "invariant": x["invariant"], "op": ev.get("o", {}).get("op"), "failing": failing},
+        lay = evs[1].get("o", {}).get("lay", "") if len(evs) > 1 else ""
+        # was the item this edit set or appended glued to the end of an existing line (instead of starting a line of its own)?
+        o, glued = ev.get("o", {}), False
+        tok = o.get("name") if o.get("op") in ("SetAttr", "SetAttrRaw") else o.get("type") if o.get("op") == "AppendBlock" else None
+        if tok:
+            import re
+            for ln in (ev.get("text") or "").replace("\r", "").split("\n"):
+                if re.search(r"\S.*[ \t{}\"]" + re.escape(tok) + r"\s*(=|\{|\")", ln):
+                    glued = True
+        why = "output-does-not-parse" if ev.get("parse_error") else ""
+        core.report(ctx, {"check": "Mon_WriteEdit", "invariant": x["invariant"], "op": ev.get("o", {}).get("op"), "failing": failing, "lay": lay, "why": why, "glued": glued},
                     {"events": [{k: e.get(k) for k in ("ev", "o", "doc", "m", "text", "parse_error")} for e in evs], "failing_event": x["event"]})
     core.write_evidence(ctx, "model_checking",
         rule="behaviours = every sequence of N edits (set an existing / new attribute to a number, string, list or traversal; remove an attribute; append a block with / without label; remove a block; format) at the top level or inside a block, on each of 6 files (lead / line / standalone comments in three styles, heredoc, multi-line list, template, nested and labelled blocks, empty file); each file rendered with seeded odd spacing, tabs and blank lines; after loading and after every edit the output is re-read into the abstract body and measured (token stream = input modulo tabs, formatting blank-only / idempotent / same tree / same values, serialised bytes = formatted token stream); non-trivial = behaviours",
